@@ -7,9 +7,11 @@ Import ListNotations.
 
 (* Format.  For every frame list in the domain of the Akamai format (wf_frames: the frames the
    fingerprint reads are well-sized per RFC 7540, pseudo-header fields are the four request ones) and
-   outside the four known defect classes, the code's fingerprint is S|WU|P|PS of AkamaiSpec.fp:
+   outside the three known defect classes (empty first SETTINGS; incomplete first header block;
+   non-UTF-8 pseudo-header value), the code's fingerprint is S|WU|P|PS of AkamaiSpec.fp:
    all settings ids (known or unknown) and values in wire order, reserved bits masked, `00`/`0`
-   defaults, exclusive bit, 31-bit dependency, weight+1, pseudo-header order. *)
+   defaults, exclusive bit, 31-bit dependency, weight+1, pseudo-header order of the whole first header
+   block (padding and priority fields stripped, CONTINUATION fragments joined: fix 89b3393). *)
 Theorem C17_string :
   forall frames : list frame,
     wf_frames frames = true -> known frames = false ->
@@ -57,32 +59,34 @@ Print Assumptions C17_incremental_chunking.
 (* Incremental extraction against the specification: for a connection start `stream_start pre frs`
    supplied in arbitrary chunks (any prefix of it), the extractor's outputs are those of
    AkamaiSpec.inc_spec: the fingerprint (by fp) of the frames completely received when the first
-   SETTINGS frame completes, at that chunk, once.  Hypothesis: every frame-list prefix is in the
-   domain of C17_string. *)
+   SETTINGS frame completes, at that chunk, once.  Hypothesis: the frame lists seen at the chunk
+   boundaries up to the report (AkamaiSpec.boundaries) are in the domain of C17_string. *)
 Theorem C17_incremental :
   forall (pre : bool) (frs : list (bool * frame)),
     forallb wire_ok frs = true ->
-    (forall k, wf_frames (firstn k (map snd frs)) = true /\ known (firstn k (map snd frs)) = false) ->
     forall chunks : list bytes,
       starts_with (concat chunks) (stream_start pre frs) = true ->
+      Forall (fun vis => wf_frames vis = true /\ known vis = false) (boundaries pre frs 0 chunks) ->
       inc_outs chunks = map to_add (inc_spec pre frs chunks).
 Proof. exact inc_model_spec. Qed.
 Check C17_incremental :
   forall (pre : bool) (frs : list (bool * frame)),
     forallb wire_ok frs = true ->
-    (forall k, wf_frames (firstn k (map snd frs)) = true /\ known (firstn k (map snd frs)) = false) ->
     forall chunks : list bytes,
       starts_with (concat chunks) (stream_start pre frs) = true ->
+      Forall (fun vis => wf_frames vis = true /\ known vis = false) (boundaries pre frs 0 chunks) ->
       inc_outs chunks = map to_add (inc_spec pre frs chunks).
 Print Assumptions C17_incremental.
 
+(* preface + SETTINGS, WINDOW_UPDATE, two PRIORITY, PADDED+PRIORITY HEADERS continued by CONTINUATION,
+   cut after 30 and after 100 octets *)
 Example C17_incremental_hyps_satisfiable :
-  forallb wire_ok ex_frames = true /\
-  forall k, wf_frames (firstn k (map snd ex_frames)) = true /\ known (firstn k (map snd ex_frames)) = false.
-Proof.
-  split; [vm_compute; reflexivity|]. intros k.
-  do 6 (destruct k as [|k]; [vm_compute; split; reflexivity|]). vm_compute. split; reflexivity.
-Qed.
+  let data := stream_start true ex_frames in
+  let chunks := [firstn 30 data; firstn 70 (skipn 30 data); skipn 100 data] in
+  forallb wire_ok ex_frames = true /\ concat chunks = data /\
+  forallb (fun vis => wf_frames vis && negb (known vis)) (boundaries true ex_frames 0 chunks) = true /\
+  map to_add (inc_spec true ex_frames chunks) = [RNone; RSome (bs "1:65536;3:100;4:6291456|15663105|3:1:0:201,5:0:3:101|"); RNone].
+Proof. vm_compute. repeat split; reflexivity. Qed.
 
 (* The panic!() inside the HPACK crate's table consolidation is unreachable from the extractor. *)
 Theorem C17_no_panic : forall frames : list frame, extract_akamai_fingerprint frames <> Panicked.
@@ -97,21 +101,19 @@ Theorem C17_known_empty_settings_refuted :
                  extract_akamai_fingerprint frames <> Val (fp frames).
 Proof. exact Known_empty_settings_refuted. Qed.
 Print Assumptions C17_known_empty_settings_refuted.
-Theorem C17_known_headers_priority_flag_refuted :
-  exists frames, wf_frames frames = true /\ k_headers_flags frames = true /\
+Theorem C17_known_incomplete_block_refuted :
+  exists frames, wf_frames frames = true /\ k_incomplete_block frames = true /\
                  extract_akamai_fingerprint frames <> Val (fp frames).
-Proof. exact Known_headers_priority_refuted. Qed.
-Print Assumptions C17_known_headers_priority_flag_refuted.
-Theorem C17_known_headers_padded_refuted :
-  exists frames, wf_frames frames = true /\ k_headers_flags frames = true /\
-                 extract_akamai_fingerprint frames <> Val (fp frames).
-Proof. exact Known_headers_padded_refuted. Qed.
-Print Assumptions C17_known_headers_padded_refuted.
-Theorem C17_known_continuation_refuted :
-  exists frames, wf_frames frames = true /\ k_continued frames = true /\
-                 extract_akamai_fingerprint frames <> Val (fp frames).
-Proof. exact Known_continued_refuted. Qed.
-Print Assumptions C17_known_continuation_refuted.
+Proof. exact Known_incomplete_block_refuted. Qed.
+Print Assumptions C17_known_incomplete_block_refuted.
+(* the witnesses of the two former classes (PADDED / PRIORITY-flag HEADERS, CONTINUATION), repaired by
+   89b3393, are inside the domain of C17_string now and yield m,a,s,p *)
+Theorem C17_former_witnesses_agree :
+  Forall (fun frames => wf_frames frames = true /\ known frames = false /\
+                        extract_akamai_fingerprint frames = Val (Some (bs "3:100|00|0|m,a,s,p")))
+         [w_headers_priority; w_headers_padded; w_continued].
+Proof. exact former_witnesses_agree. Qed.
+Print Assumptions C17_former_witnesses_agree.
 Theorem C17_known_nonutf8_pseudo_refuted :
   exists frames, wf_frames frames = true /\ k_nonutf8 frames = true /\
                  extract_akamai_fingerprint frames <> Val (fp frames).
